@@ -87,8 +87,9 @@ def main():
     if rec["confirmed"] is not False:
         dst = os.path.join(ROOT, "seeded", a.pid, a.variant)
         os.makedirs(dst, exist_ok=True)
-        for f in os.listdir(a.src):
-            if f != "meta.json": shutil.copy(os.path.join(a.src, f), os.path.join(dst, f))
+        if os.path.realpath(a.src) != os.path.realpath(dst):
+            for f in os.listdir(a.src):
+                if f != "meta.json" and os.path.isfile(os.path.join(a.src, f)): shutil.copy(os.path.join(a.src, f), os.path.join(dst, f))
         meta = {}
         try: meta = json.load(open(os.path.join(a.src, "meta.json")))
         except Exception as e: meta = dict(author_meta_unparsed=open(os.path.join(a.src, "meta.json")).read()[:4000])
@@ -96,8 +97,10 @@ def main():
         if os.path.exists(os.path.join(dst, "meta.json")):
             try: old = json.load(open(os.path.join(dst, "meta.json")))
             except Exception: pass
-        out = dict(property=a.pid, variant=a.variant, breaks=meta.get("summary"), needs_to_manifest=meta.get("needs_to_manifest"),
-                   files_changed=meta.get("files_changed"), why_existing_tests_pass=meta.get("why_existing_tests_pass"),
+        out = dict(property=a.pid, variant=a.variant, breaks=meta.get("summary") or meta.get("breaks") or old.get("breaks"),
+                   needs_to_manifest=meta.get("needs_to_manifest") or old.get("needs_to_manifest"),
+                   files_changed=meta.get("files_changed") or old.get("files_changed"),
+                   why_existing_tests_pass=meta.get("why_existing_tests_pass") or old.get("why_existing_tests_pass"),
                    author="independent sub-agent given only the property text and a scratch worktree of /repo",
                    coordinator_confirmation=rec["ran"] or old.get("coordinator_confirmation"),
                    confirmed=rec["confirmed"] if rec["confirmed"] is not None else old.get("confirmed"),
